@@ -310,7 +310,26 @@ def _reach_with_fact(prog, body, site_bb, place, bad, cap=60000):
             if "lhs" not in s:
                 continue
             lhs = P(s["lhs"])
+            if lhs[1] and lhs[1][0] == "*":
+                lhs = _norm(body, lhs)  # a write through a reference (`(*r).loc = ..`, r = &mut x) is a write to x.loc
             rv = s["rv"]
+            # writes end what a scrutinee tuple says about the place it copied
+            for k_ in [k_ for k_, v_ in facts.items() if k_[0] == "alias" and v_[0] == lhs[0] and (tuple(v_[1][: len(lhs[1])]) == tuple(lhs[1]) or tuple(lhs[1][: len(v_[1])]) == tuple(v_[1]))]:
+                del facts[k_]
+            if rv["k"] == "aggr" and rv.get("ak") == "tuple" and not lhs[1]:
+                # `match (a.loc, b.loc) { .. }`: the tuple's fields are copies of tracked places
+                for i_, o_ in enumerate(rv["ops"]):
+                    sp = op_place(o_)
+                    sp = _norm(body, sp) if sp is not None else None
+                    if sp is not None and sp in tracked:
+                        fp_ = (lhs[0], (f".{i_}",))
+                        facts[("alias", fp_)] = sp
+                        if fp_ in tracked:
+                            if sp in facts:
+                                facts[fp_] = facts[sp]
+                            else:
+                                facts.pop(fp_, None)
+                continue
             for p in by_local.get(lhs[0], ()):
                 if lhs == p:
                     v = _assigned_variant(body, rv)
@@ -325,6 +344,8 @@ def _reach_with_fact(prog, body, site_bb, place, bad, cap=60000):
                 for p in by_local.get(rp[0], ()):
                     if tuple(p[1][: len(rp[1])]) == tuple(rp[1]) or tuple(rp[1][: len(p[1])]) == tuple(p[1]):
                         facts.pop(p, None)
+                        for k_ in [k_ for k_, v_ in facts.items() if k_[0] == "alias" and v_ == p]:
+                            del facts[k_]
         if b == site_bb:
             cur = facts.get(place)
             if cur is None or bad in cur:
@@ -336,6 +357,8 @@ def _reach_with_fact(prog, body, site_bb, place, bad, cap=60000):
             for p in by_local.get(d[0], ()):
                 if d == p or (len(d[1]) < len(p[1]) and tuple(p[1][: len(d[1])]) == tuple(d[1])):
                     facts.pop(p, None)
+                    for k_ in [k_ for k_, v_ in facts.items() if k_[0] == "alias" and v_ == p]:
+                        del facts[k_]
         sd = R.switch_discr_place(body, b)
         if sd is not None and _norm(body, sd[0]) in tracked:
             pl = _norm(body, sd[0])
@@ -348,6 +371,12 @@ def _reach_with_fact(prog, body, site_bb, place, bad, cap=60000):
                 if allowed:
                     nf = dict(facts)
                     nf[pl] = allowed
+                    al = facts.get(("alias", pl))
+                    if al is not None:
+                        a3 = allowed if nf.get(al) is None else (allowed & nf[al])
+                        if not a3:
+                            continue
+                        nf[al] = a3
                     work.append((tgt, frozenset(nf.items())))
             continue
         if t["k"] == "switch":
@@ -757,3 +786,49 @@ def len_fraction_guard(body, bb, t):
             if k2 is not None and k2 == rk and not mutated_between(body, rk, o[2] if len(o) > 2 else bb, bb):
                 return f"offset is len / {c} of the same collection (<= len)"
     return None
+
+
+_ORDER_COMBINATORS = ("std::cmp::Ordering::then", "std::cmp::Ordering::then_with", "std::cmp::Ordering::reverse")
+
+
+def total_order_comparator(prog, body, t):
+    """D8: the documented panic of the slice sorts is a comparison that is not a total order.  A sort by key needs
+    `K: Ord`; a sort by comparator is total when the closure's answer is built from `Ord::cmp` calls on non-float
+    operands (combined with then / then_with / reverse) and from nothing else."""
+    if "fn" not in t:
+        return None
+    c = Callee(t["fn"])
+    last = c.path.split("::")[-1]
+    if not c.path.startswith("std::slice::<impl [T]>::"):
+        return None
+    if last in ("sort_by_key", "sort_unstable_by_key", "sort_by_cached_key", "sort", "sort_unstable"):
+        return f"`{last}` compares through `Ord` of the key type: a total order by the trait's contract"
+    if last not in ("sort_by", "sort_unstable_by") or len(t.get("args", [])) < 2:
+        return None
+    cid = R.closure_id_of_operand(body, t["args"][1])
+    cb = prog.bodies.get(cid) if cid is not None else None
+    if cb is None:
+        return None
+    n = 0
+    for _b, ct in cb.calls():
+        if "fn" not in ct:
+            return None
+        cc = Callee(ct["fn"])
+        if cc.decl_path == "std::cmp::Ord::cmp":
+            if "f32" in cc.inst or "f64" in cc.inst:
+                return None
+            n += 1
+        elif cc.decl_path in ("std::cmp::PartialOrd::partial_cmp", "std::cmp::PartialOrd::lt", "std::cmp::PartialOrd::le", "std::cmp::PartialOrd::gt", "std::cmp::PartialOrd::ge"):
+            return None
+        elif cc.local:
+            return None
+    # the answer is not assembled by hand from comparisons
+    for _b, _i, s in cb.all_stmts():
+        rv = s.get("rv") or {}
+        if rv.get("k") == "binop" and rv.get("op") in ("Lt", "Le", "Gt", "Ge"):
+            return None
+        if rv.get("k") == "aggr" and "Ordering" in str(rv.get("adt", "")):
+            return None
+    if n == 0:
+        return None
+    return f"the comparator of `{last}` answers with `Ord::cmp` of its operands ({n} call(s)) and nothing else: a total order"
